@@ -25,7 +25,8 @@ std::vector<std::shared_ptr<Packet>> Decoder::decode(const void* data, const std
     const auto deviceId = header->getDeviceId();
     const auto streamId = header->getStreamId();
     auto packetPtr = reinterpret_cast<const uint8_t*>(header + 1);
-    int curSize = static_cast<int>(size - sizeof(CmpHeader));
+    // The size stays a size_t: narrowing it to int made frames of 2 GiB and more look empty or negative
+    std::size_t curSize = size - sizeof(CmpHeader);
     std::shared_ptr<Packet> packet;
     if (curSize == 0)
         segmentedPackets.erase({deviceId, streamId});
@@ -81,7 +82,7 @@ std::vector<std::shared_ptr<Packet>> Decoder::decode(const void* data, const std
 
         const auto packetSize = packet->getPayloadLength() + sizeof(MessageHeader);
         packetPtr += packetSize;
-        curSize -= static_cast<int>(packetSize);
+        curSize -= packetSize;
     }
 
     return packets;
